@@ -109,6 +109,8 @@ def run_seeded(args):
         return {"error": (p.stderr or p.stdout)[-400:]}
 
 
+TWO_PASS = 'import re\n\n\ndef find_numbers(text):\n    return re.findall("\\d+", text)\n\n\nprint(find_numbers("a1b22"))\n'
+
 FILES_SNIPPET = r"""
 import sys, json, random
 sys.path.insert(0, %r)
@@ -145,7 +147,9 @@ def run_schedule(args):
             with open(p, "w", encoding="utf-8") as f:
                 f.write(src)
         job = {"root": root, "n_cores": n_cores, "shuffle": shuffle, "max_passes": max_passes}
-        p = subprocess.run([sys.executable, "-c", FILES_SNIPPET % P.REPO], input=json.dumps(job), capture_output=True, text=True, timeout=3000, cwd=root)
+        # the iteration order of a set of paths follows the string hash: each configuration runs under its own, fixed, hash seed
+        env = dict(os.environ, PYTHONHASHSEED=str((shuffle or 0) * 31 + n_cores))
+        p = subprocess.run([sys.executable, "-c", FILES_SNIPPET % P.REPO], input=json.dumps(job), capture_output=True, text=True, timeout=3000, cwd=root, env=env)
         try:
             ret = json.loads(p.stdout.strip().splitlines()[-1])["ret"]
         except Exception:  # noqa: BLE001
@@ -221,6 +225,10 @@ def run(tier, seed):
         for i, src in enumerate(picks[:4] + SAME_TEXT):
             mods[os.path.join("vendor", f"copy_{i}.py")] = src
             mods[os.path.join("pkg_b", "vendored", f"copy_{i}.py")] = src
+        # files that need a second pass of format_file (the per-folder pass bookkeeping decides whether they get it)
+        for k in range(5):
+            mods[os.path.join(f"solo_{k}", "numbers.py")] = TWO_PASS
+            mods[os.path.join(f"settled_{k}", "ok.py")] = "import sys\n\nprint(sys.argv)\n"
         trees.append(mods)
     configs = [(1, None), (2, 7), (4, 3), (16, 11)] if tier == "quick" else [(1, None), (1, 5), (2, 7), (3, 1), (4, 3), (8, 2), (16, 11), (16, 12)]
     sjobs = [(mods, nc, sh, mp_) for mods in trees for mp_ in ((1, 2) if tier == "quick" else (1, 2, 3)) for nc, sh in configs]
@@ -249,7 +257,7 @@ def run(tier, seed):
                     fl.append({"id": f"schedule:files::{ti}::{mp_}::{nc}", "cls": "schedule:files-differ", "input": json.dumps({f: mods.get(f) for f in diff[:2]})[:2000],
                                "observed": f"n_cores={nc} shuffled({sh}) max_passes={mp_}: files {diff[:3]} differ from the sequential run", "required": "exactly the files the sequential run gives"})
     out.append({"name": "c06-worker-schedules", "function": "main.format_files", "contract": "tree content and return value equal those of the sequential run (n_cores=1, sorted list)",
-                "space": f"{len(trees)} trees of 32 modules in 6 folders (14 of them byte-identical copies of others) x max_passes x (n_cores, shuffle seed) in {configs}", "bound": "enumerated configurations; OS scheduling of pool workers not controlled",
+                "space": f"{len(trees)} trees of {len(trees[0])} modules in {len({os.path.dirname(f) for f in trees[0]})} folders (byte-identical copies of others, files that need a second pass and settled files each alone in a folder) x max_passes x (n_cores, shuffle seed) in {configs}, each configuration under its own fixed PYTHONHASHSEED", "bound": "enumerated configurations; OS scheduling of pool workers not controlled",
                 "evaluations": evals, "distinct_nontrivial": len(trees), "exhaustive": False, "failures": P.cap(fl), "samples": [list(trees[0])[0]]})
     return out
 
